@@ -79,6 +79,21 @@ impl ErrKind {
     pub fn error(self) -> io::Error {
         io::Error::new(self.to_io(), "injected by simulator")
     }
+
+    /// the same kind as a *raw OS error* (what a real socket or file returns: `raw_os_error()` is Some); kinds without
+    /// an errno fall back to the synthetic form
+    pub fn os_error(self) -> io::Error {
+        let errno = match self {
+            ErrKind::ConnectionReset => libc::ECONNRESET,
+            ErrKind::ConnectionAborted => libc::ECONNABORTED,
+            ErrKind::TimedOut => libc::ETIMEDOUT,
+            ErrKind::BrokenPipe => libc::EPIPE,
+            ErrKind::PermissionDenied => libc::EACCES,
+            ErrKind::WouldBlock => libc::EAGAIN,
+            _ => return self.error(),
+        };
+        io::Error::from_raw_os_error(errno)
+    }
 }
 
 #[derive(Clone, Copy, Debug, PartialEq, Eq, Serialize, Deserialize)]
@@ -118,6 +133,9 @@ pub struct Fault {
     pub kind: FaultKind,
     #[serde(default)]
     pub once: bool,
+    /// deliver the error as a raw OS error (errno) instead of a synthetic one
+    #[serde(default)]
+    pub os: bool,
 }
 
 #[derive(Clone, Debug, Default, PartialEq, Serialize, Deserialize)]
@@ -365,6 +383,7 @@ impl SrcHandle {
 enum Step {
     Ok(usize),
     Err(ErrKind),
+    ErrOs(ErrKind),
     Eintr,
     Pend(Wake, u8),
 }
@@ -413,7 +432,11 @@ impl SrcState {
                     if f.once {
                         self.spec.fault = None;
                     }
-                    Step::Err(k)
+                    if f.os {
+                        Step::ErrOs(k)
+                    } else {
+                        Step::Err(k)
+                    }
                 }
             },
             _ => {
@@ -517,6 +540,7 @@ impl Read for SimRead {
         match st.step(buf, false) {
             Step::Ok(n) => Ok(n),
             Step::Err(k) => Err(k.error()),
+            Step::ErrOs(k) => Err(k.os_error()),
             Step::Eintr => Err(io::Error::new(io::ErrorKind::Interrupted, "injected EINTR")),
             Step::Pend(..) => unreachable!(),
         }
@@ -544,6 +568,7 @@ impl AsyncRead for SimAsyncRead {
         match st.step(buf, true) {
             Step::Ok(n) => Poll::Ready(Ok(n)),
             Step::Err(k) => Poll::Ready(Err(k.error())),
+            Step::ErrOs(k) => Poll::Ready(Err(k.os_error())),
             Step::Eintr => unreachable!(),
             Step::Pend(wake, spurious) => {
                 let req = buf.len();
